@@ -35,7 +35,7 @@ def parse_probe(ans: str):
     if body:
         for item in body.split(";"):
             k, v = item.split("=")
-            out[bytes.fromhex(k).decode() if k != "-" else ""] = bytes.fromhex(v) if v != "-" else b""
+            out[bytes.fromhex(k).decode("utf-8", "replace") if k != "-" else ""] = bytes.fromhex(v) if v != "-" else b""
     return out
 
 
